@@ -43,6 +43,7 @@ def _cancel_resume(env: Env, out: Outcome, n: int) -> None:
         if rng.random() < 0.6:
             spec["resume_timeout"] = rng.choice([1, 2, 4, 10, 30])
         jobs.append((spec, rng.randrange(1 << 30), None, None))
+    resumed: list = []
     for spec, seed, a1, a2 in jobs:
         tr1 = live.run_spec(spec, seed=seed, replay_actions=a1)
         out.evaluations += 1
@@ -76,6 +77,7 @@ def _cancel_resume(env: Env, out: Outcome, n: int) -> None:
         out.count("cancel_resume:outcome:" + tr2.outcome[0])
         if pending:
             out.nontrivial((repr(spec), tuple(tr1.actions)))
+        resumed.append(tr2)
         out.count("cancel_resume:resume_timeout:" + str(spec2.get("timeout")))
         for v in monitors.mon_c31(tr2):
             v.replay = case
@@ -88,6 +90,9 @@ def _cancel_resume(env: Env, out: Outcome, n: int) -> None:
         for p in pending:
             if p not in entered and not ended_early:
                 out.violations.append(Violation("C31/pending_invocation_not_resumed", f"after cancel + resume the invocation {p} (in progress or queued at the cancel) was never executed; resumed run ended as {tr2.outcome[0]}", case))
+
+    # the resumed runs against the runner LTS (rinit without a start event: timer heap, buffer, workers, stream, commands per tick)
+    suite.runner_corr(out, resumed, "engine-runner-resumed")
 
 
 def run(env: Env) -> Outcome:
